@@ -222,6 +222,14 @@ func (r *Run) Violation(key, what string, replay interface{}) {
 	}
 }
 
+// IsKnown reports whether key is a listed known finding (explorers keep expanding such states).
+func (r *Run) IsKnown(key string) bool {
+	r.mu.Lock()
+	defer r.mu.Unlock()
+	_, ok := r.known[key]
+	return ok
+}
+
 // Violations returns the number of distinct unlisted violation keys so far.
 func (r *Run) Violations() int {
 	r.mu.Lock()
